@@ -203,13 +203,7 @@ func probeOne(t *TypeDef, sh Shape, seed int64) {
 	}
 }
 
-var dbgDet func()
-
 func main() {
-	if dbgDet != nil {
-		dbgDet()
-		return
-	}
 	if len(os.Args) < 2 {
 		fmt.Fprintln(os.Stderr, "usage: codecdrv tables|probe|replay|random|fuzz|fuzzone ...")
 		os.Exit(2)
